@@ -9,6 +9,8 @@ TRUSTED_BASE = [
 ]
 
 BRANCH_NAMES = {
+    'mercagg': ['timestamp', 'price_ok', 'price_err', 'fee_ok', 'fee_err', 'maxfints_ok', 'maxfints_err', 'maxfinblock_ok',
+                'maxfinblock_err', 'status_ok', 'status_err', 'latestblock_ok', 'latestblock_err'],
     'agg': ['too_few', 'plain_median', 'timestamped_median', 'quote', 'mode_value', 'mode_error', 'other_error'],
     'evmint': ['invalid_type', 'unsigned_ok', 'unsigned_out_of_range', 'signed_ok_nonneg', 'signed_ok_neg', 'signed_out_of_range'],
 }
@@ -57,6 +59,24 @@ PROPS = {
                    'present values yield no aggregate; model tied to the Go aggregators by differential testing evaluated in Coq.',
         level_note='Trusted: Coq kernel + vm_compute; hand-written model of aggregators.go, shopspring/decimal Cmp and math/big sign-magnitude '
                    'integers; Go sort.Slice modelled as insertion sort (exact for n<=12). Axioms: none.',
+    ),
+    'C08': dict(
+        level='proof',
+        projections=[dict(name='mercagg', n_quick=1600, n_thorough=30000)],
+        rule='mercagg: every vote table / order type of n<=4 (thorough 5) observations over {1,2,3,invalid} for each of the nine '
+             'consensus functions (f=1), then structured random cases f in 1..3, 2f+1..3f+1 observations, honest values near a base, '
+             'faulty values 0, +-2^k, -1.., invalid flags, forked/invented blocks, deprecated current-block fields; every case also run on a '
+             'random permutation of the observation list. Distinct by SHA-1 of the input.',
+        explanation='Theorems C08_* prove for all observation lists, f and faulty values: consensus timestamp/price/bid/ask/fees lie between '
+                    'two valid values of correct observers when those outnumber the faulty valid ones; max-finalized timestamp / block number, '
+                    'market status and latest block are values reported identically by >= f+1 observers (hence by a correct one when <= f are '
+                    'faulty), for every map iteration order; fewer than f+1 usable values give an error. The models are compared with the '
+                    'exported Go functions on generated cases inside Coq and the predicate is evaluated on the Go results.',
+        assumptions=['sort.Slice returns a sorted permutation (insertion sort modelled, exact for n<=12; integer keys, so ties are identical)'],
+        level_text='Coq theorems for all lists/f/adversaries about the modelled Mercury consensus functions (medians in the honest range, '
+                   'f+1-agreement selectors with an honest witness, errors below f+1); models tied to mercury.GetConsensus*, '
+                   'v1.GetConsensus*, v4.GetConsensusMarketStatus by differential testing.',
+        level_note='Trusted: Coq kernel + vm_compute; hand-written models of the aggregate functions; harness PAO stub. Axioms: none.',
     ),
     'C15': dict(
         level='proof',
